@@ -36,6 +36,11 @@ CLAIMED = {
             "Every case is compiled by the repository's compiler and played along every choice path (depth <= 6) with and without handler; at every node save_state, save+load into a fresh story, a flow switch, path jumps and host function evaluation are probed. No call may panic; Int + - * and unary minus must print the 32-bit wrapping result; after an error reset_state + the same history replays like the first run; the debug build must produce the same transcript for every case in the debug set.",
             "Trusted: catch_unwind around every host call; the wrapping oracle is i32::wrapping_*; cases that exhaust the step fuel give no verdict. Quick tier: the debug set is all statement cases, all integer-operand expression cases and every 7th other case.",
             "DESIGN.md §5 C04"),
+    "C05": ("model_checking",
+            "lockstep exploration of two programs on the real runtime: this compiler's output vs the reference-compiled story of every corpus pair, all choice paths up to a depth bound / node cap, same seed and external stubs",
+            "All 121 (source, reference .ink.json) pairs: story A = Compiler::compile(source) (includes resolved), story B = reference JSON; every choice path up to the depth bound (complete trees for the small stories, node cap for the large ones, reported per run) must give equal lines, tags, choices (text, tags, order), end status, error/warning counts and global variable values; the three shuffle stories are compared modulo the shuffle.",
+            "Trusted: the runtime itself (both sides run on it, so a runtime defect cancels out) and the reference JSON files in the repository. Visit counts are not compared (container paths differ between compilers).",
+            "DESIGN.md §5 C05"),
     "C06": ("fault_enumeration",
             "bounded exhaustive enumeration of compiler inputs (every single token edit incl. identifier edits, line edit and truncation of corpus sources; all token strings up to length 3-4 over Ink's punctuation/keywords; generated programs; hostile and deeply nested texts), each compiled in a watched worker process; oracles: termination, error line in range, accepted story loads, independent static resolution of every reference, compile-twice identity",
             "Every input must make the compiler return (a panic is caught in-process, an abort/stack overflow/hang by the parent's per-input watchdog and pinned to the exact input); an error that names a line names an existing line; every accepted story loads with Story::new and every divert, thread start, tunnel, function call, choice target, read count and divert-target literal in it resolves exactly (independent resolver over the JSON document, cross-checked against the runtime's content_at_path); compiling twice gives the same bytes.",
